@@ -126,6 +126,8 @@ def quick_family() -> List[Skeleton]:
     add("three items", [E(nm.m(), [E(nm.o()), E(nm.o()), E(nm.o())]), E(nm.m()), E(nm.m(), [E(nm.o())])], "seq")
     add("int operand", [E(nm.m(), [E(0), E(nm.o()), E(1)])], "seq")
     add("hex-h operand", [E(nm.m(), [E("10h"), E(nm.o())])], "seq", "hex")
+    for reg in ("ah", "bh", "ch", "dh", "AH", "bl", "eh"):
+        add(f"operand named {reg} (a register / name that ends in h)", [E(nm.m(), [E(reg), E(nm.o())])], "seq", "hex")
     add("high-byte register operand", [E(nm.m(), [E("ah"), E("%bh")])], "seq")
     # --- times on leaves, both spellings (C02)
     for t in TIMES_VARIANTS:
